@@ -408,4 +408,4 @@ package variants
 //@   before return#19: assert [c18.error.first] len(recvd(cErr)) == 1 && err == recvd(cErr)[0]
 //@   before return#20: assert [c18.error.first] len(recvd(cErr)) == 1 && err == recvd(cErr)[0]
 //@   before return#21: assert [c18.nil.means.clean] len(recvd(cErr)) == 0 && len(recvd(cMSADone)) == 1 && len(recvd(cVariantsDone)) == 1 && len(recvd(cWriteDone)) == 1
-//@   ensures [c18.error.returned] implies(gErrSeen, result != nil)
+//@   ensures [local.c18.error.returned] implies(gErrSeen, result != nil)
